@@ -6,12 +6,17 @@ use std::pin::Pin;
 pub type BoxSink<T, E> = Pin<Box<dyn futures::Sink<T, Error = E> + Send>>;
 
 pub mod sink;
+/// /repo/server/src/sink/router.rs with the same one-import substitution as reqrep.rs
+#[path = "../generated/router.rs"]
+pub mod real_router;
 pub mod sink_router;
 
 pub mod topic {
     #[path = "/repo/server/src/topic/pubsub.rs"]
     pub mod pubsub;
-    #[path = "/repo/server/src/topic/reqrep.rs"]
+    // reqrep.rs with ONE mechanical substitution made at check time (engines/registry.py,
+    // PREPARE): `std::collections::HashMap` -> `selium_protocol::collections::HashMap`
+    #[path = "../../generated/reqrep.rs"]
     pub mod reqrep;
 }
 
@@ -23,3 +28,5 @@ mod pubsub_t;
 pub mod reqrep_mock;
 #[cfg(kani)]
 mod reqrep_t;
+#[cfg(kani)]
+mod router_s;
